@@ -257,8 +257,12 @@ def r3_remove(ctx, res):
         for p in parents(w):
             if p is rm.node:
                 break
-            if isinstance(p, ast.For) and 'find_lexicons' not in norm(p.iter):
-                res.find(key + ':loop', rm.module.loc(w), f'`with conn` of remove() is inside the loop over `{norm(p.iter)}`')
+            if isinstance(p, ast.For):
+                from ..pyutil import resolve_value
+                src_it = resolve_value(rm.node, p.iter)
+                if 'find_lexicons' not in norm(src_it):
+                    res.find(key + ':loop', rm.module.loc(w), f'`with conn` of remove() is inside the loop over `{norm(p.iter)}` '
+                                                              f'(only the loop over the matched lexicons may enclose it)')
     # commit points inside
     for w in withs.get(rm.key, []):
         for st in w.body:
